@@ -277,7 +277,8 @@ let () =
         else List.iter (fun key ->
             if starts_with (key ^ " rc=") l then
               let v = List.hd (String.split_on_char ' ' (after (key ^ " rc=") l)) in
-              api := (key, int_of_string v) :: !api) ["SETSERVERS"; "SETSORTLIST"; "REINIT"; "SETSOCKFUNCS"]) lines;
+              api := (key, int_of_string v) :: !api) ["SETSERVERS"; "SETSORTLIST"; "REINIT"; "SETSOCKFUNCS"; "SETSERVERSL"; "SETSERVERSP";
+                                                                      "SETSERVERSCSV"; "GETSERVERS"; "GETSERVERSP"; "DUP"]) lines;
       let api = List.rev !api in
       (* the request whose submission call contains the failure: REQ tT .. ALLOCFAIL .. RET tT *)
       let window =
